@@ -2,8 +2,10 @@
 from corr import corr_assemble
 import solversearch as SS
 
-MODULES = ["PyFV.Props.C12", "PyFV.Props.C12Lim", "PyFV.Props.GenEqAvg"]
-TRANSLATORS = {"T-lim": "python3 harness/translate/tlim.py lean/PyFV/Gen/Limiters.lean", "T-avg": "python3 harness/translate/tavg.py lean/PyFV/Gen/AvgGen.lean"}
+MODULES = ["PyFV.Props.C12", "PyFV.Props.C12Lim", "PyFV.Props.GenEqAvg", "PyFV.Props.GenEqAsm"]
+TRANSLATORS = {"T-lim": "python3 harness/translate/tlim.py lean/PyFV/Gen/Limiters.lean",
+               "T-avg": "python3 harness/translate/tavg.py lean/PyFV/Gen/AvgGen.lean",
+               "T-asm": "python3 harness/translate/tasm.py lean/PyFV/Gen/AsmGen.lean"}
 
 
 def corr(rng, tier):
